@@ -29,10 +29,12 @@ OptSets ==
      << << KeyB, ValX >>, << KeyA, ValX >> >>,                                  \* unsorted
      << << << 104, 111, 115, 116 >>, << 49, 46, 50, 46, 51, 46, 52 >> >>, << << 112, 111, 114, 116 >>, << 56, 48 >> >> >> >>
 
+\* for RouterInfo sessions the extent L of the embedded identity (for the independent SHA-256 of IdentHash) comes from the reference decoder
+ExtraFor(fns, w, extra) == IF fns[1] = "ReadRouterInfo" THEN extra @@ [L |-> Min(RefReadRouterIdentity(w).consumed, Len(w))] ELSE extra
 Session(fns, w, extra, cls) ==
-  [ops |-> [i \in 1..Len(Tails) |-> [op |-> "Twins", fns |-> fns, in |-> w \o Tails[i], cls |-> cls] @@ extra]]
+  [ops |-> [i \in 1..Len(Tails) |-> [op |-> "Twins", fns |-> fns, in |-> w \o Tails[i], cls |-> cls] @@ ExtraFor(fns, w, extra)]]
 SessionSweep(fns, w, extra, cls, from) ==
-  [ops |-> [i \in 1..Len(Tails) |-> [op |-> "Twins", fns |-> fns, in |-> w \o Tails[i], cls |-> cls] @@ extra]
+  [ops |-> [i \in 1..Len(Tails) |-> [op |-> "Twins", fns |-> fns, in |-> w \o Tails[i], cls |-> cls] @@ ExtraFor(fns, w, extra)]
            \o << [op |-> "Sweep", fn |-> fns[1], in |-> w \o << 0, 255 >>, cls |-> cls, from |-> from] @@ extra >>]
 
 (******************************* leases / keys / tags ***********************)
@@ -192,6 +194,7 @@ PrimVecs ==
   << SessionSweep(<< "ReadDate", "NewDate" >>, Fill(8, 1), << >>, "date", 0),
      SessionSweep(<< "ReadHash" >>, Fill(32, 2), << >>, "hash", 0) >>
   \o SeqMap(LAMBDA d : SessionSweep(<< "ReadI2PString" >>, << d >> \o Fill(d, d), << >>, "string", 0), << 0, 1, 2, 17, 254, 255 >>)
+  \o Cross3(<< "ReadInteger", "NewInteger" >>, << 1, 2, 4, 8 >>, << 0, 1, 7, 8, 9, 12 >>, LAMBDA fn, sz, n : [ops |-> << [op |-> "ReadInt", fn |-> fn, size |-> sz, in |-> Fill(n, sz)] >>])
   \o SeqMap(LAMBDA sz : SessionSweep(<< "ReadInteger", "NewInteger" >>, Fill(sz, sz), [size |-> sz], "integer", 0), << 1, 2, 3, 4, 5, 6, 7, 8 >>)
 
 Vecs == CASE Fam = "prims" -> PrimVecs [] Fam = "lease" -> LeaseVecs \o SessionVecs [] Fam = "sig" -> SigVecs [] Fam = "offsig" -> OffVecs
